@@ -86,10 +86,13 @@ def main():
         shutil.rmtree(wt, ignore_errors=True)
     dest = os.path.join(VERIF, "seeded", sid)
     os.makedirs(dest, exist_ok=True)
-    shutil.copy(os.path.join(src, "patch.diff"), os.path.join(dest, "patch.diff"))
-    shutil.copy(os.path.join(src, "demo_test.go"), os.path.join(dest, "demo_test.go"))
+    same = os.path.abspath(src) == os.path.abspath(dest)
+    if not same:
+        shutil.copy(os.path.join(src, "patch.diff"), os.path.join(dest, "patch.diff"))
+        shutil.copy(os.path.join(src, "demo_test.go"), os.path.join(dest, "demo_test.go"))
     if os.path.exists(os.path.join(src, "notes.md")):
-        shutil.copy(os.path.join(src, "notes.md"), os.path.join(dest, "notes.md"))
+        if not same:
+            shutil.copy(os.path.join(src, "notes.md"), os.path.join(dest, "notes.md"))
         meta["needs_in_order_to_manifest"] = "see notes.md (written by the independent sub-agent that produced the change)"
     old = {}
     mp = os.path.join(dest, "meta.json")
